@@ -41,7 +41,7 @@ def q_c(name):
 
 # (label, path, strip, applicability) - see build()
 KF05 = 'deletion-expressed-only-by-an-epoch-time-stamp'
-DIALECTS = ['plain', 'both-names', 'timestamps', 'diff-N', 'diff-N-east', 'diff-N-west', 'git', 'git-mode', 'orig', 'quoted', 'quoted-space', 'git-space', 'plus-first', 'prose', 'p0', 'p2', 'deep', 'git-rename']
+DIALECTS = ['plain', 'both-names', 'timestamps', 'diff-N', 'diff-N-east', 'diff-N-west', 'diff-N-orig', 'git', 'git-mode', 'orig', 'quoted', 'quoted-space', 'git-space', 'plus-first', 'prose', 'p0', 'p2', 'deep', 'git-rename']
 
 
 def build(dialect, case, rev):
@@ -61,6 +61,8 @@ def build(dialect, case, rev):
     both_exist = not a_abs and not b_abs
     if dialect in ('git-mode', 'orig', 'git-rename') and not both_exist:
         return None
+    if dialect == 'diff-N-orig' and both_exist:
+        return None   # (that is dialect 'orig' with time stamps; here: .orig-style names AND an absent side marked by the epoch)
     if dialect == 'both-names' and (a_abs if rev else b_abs):
         return None   # a diff with two real names cannot express a deletion (the file is emptied instead)
     if dialect == 'git-rename':
@@ -69,17 +71,17 @@ def build(dialect, case, rev):
         mode_b = 0o755
     oname = (pre[0] + path).encode()
     nname = (pre[1] + (path2 or path)).encode()
-    if dialect == 'orig':
+    if dialect in ('orig', 'diff-N-orig'):
         oname = (pre[0] + path + '.orig').encode()
     spell_o, spell_n = oname, nname
     if dialect in ('quoted', 'quoted-space'):
         spell_o, spell_n = q_c(oname.decode()), q_c(nname.decode())
     ts = b''
-    if dialect in ('timestamps', 'diff-N', 'diff-N-east', 'diff-N-west'):
+    if dialect in ('timestamps', 'diff-N', 'diff-N-east', 'diff-N-west', 'diff-N-orig'):
         ts = b'\t2020-01-02 03:04:05.000000000 +0000'
     # 'diff-N': what `diff -urN` writes - real names on both sides, the absent side marked by the epoch as its time stamp only
     # (-east/-west: the same instant as local time in another zone, without the fraction)
-    real_names = dialect in ('both-names', 'diff-N', 'diff-N-east', 'diff-N-west')
+    real_names = dialect in ('both-names', 'diff-N', 'diff-N-east', 'diff-N-west', 'diff-N-orig')
     epoch = {'diff-N-east': b'\t1970-01-01 05:30:00 +0530', 'diff-N-west': b'\t1969-12-31 19:00:00.000000000 -0500'}.get(dialect, b'\t1970-01-01 00:00:00.000000000 +0000')
     old_line = b'--- ' + (b'/dev/null' if (a_abs and not real_names) else spell_o) + (epoch if (ts and a_abs) else ts) + b'\n'
     new_line = b'+++ ' + (b'/dev/null' if (b_abs and not real_names) else spell_n) + (epoch if (ts and b_abs) else ts) + b'\n'
